@@ -43,11 +43,11 @@ def main():
             shutil.rmtree(out, ignore_errors=True)
     # the same two rules without any bound, as TLAPS proofs (spec/proofs)
     if shutil.which("tlapm"):
-        for mod in ("IdAllocProof", "SleepLedgerProof"):
+        for mod in ("IdAllocProof", "SleepLedgerProof", "PresRuleProof"):
             out = tempfile.mkdtemp(prefix="tlapm.")
             try:
                 shutil.copy(os.path.join(HERE, "spec", "proofs", mod + ".tla"), out)
-                for base in ("IdRule.tla", "Ledger.tla"):
+                for base in ("IdRule.tla", "Ledger.tla", "PresRule.tla"):
                     shutil.copy(os.path.join(HERE, "spec", base), out)
                 res = subprocess.run(["timeout", "900", "tlapm", "--cleanfp", mod + ".tla"], cwd=out, capture_output=True,
                                      text=True, check=False)
